@@ -347,6 +347,61 @@ theorem completion_start_after_cursor_counterexample :
     (textEditRange Fixes.pinned "    a:b  1    USD".toList ⟨0, 11⟩ 3).map toN = some ⟨0, 14, 0, 11⟩ ∧
     rangeOK "account a:b".toList ⟨0, 8, 0, 0⟩ = false := by decide
 
+/-- Completion with repo_patches/fix-completion-edit-start.diff: for EVERY document, every
+    cursor that is a position of the document and every completion context, the edit range
+    lies in the cursor's line, starts on a code-point boundary at or before the cursor and
+    ends at the cursor (full theorem, no guard on the text). -/
+theorem completion_edit_rangeOK (fx : Fixes) (hfx : fx.clamp = true) (doc : Txt) (c : Cur) (ctx : Nat)
+    (r : LRange) (hc : posOK doc c.line c.char = true) (h1 : c.line < 4294967296)
+    (h2 : c.char < 4294967296) (h : textEditRange fx doc c ctx = some r) :
+    rangeOK doc (toN r) = true := by
+  unfold posOK at hc
+  rw [docLines_get] at hc
+  unfold textEditRange at h
+  cases hl : (lines doc)[c.line]? with
+  | none => simp [hl] at h
+  | some line =>
+    simp only [hl, Option.map_some] at hc h
+    cases hk : charsOfUnits (stripCR line) c.char with
+    | none => simp [hk] at hc
+    | some k' =>
+      obtain ⟨suf, hsuf⟩ := stripCR_prefix line
+      have hkk : takeU16 line c.char = k' := by
+        rw [hsuf]; exact takeU16_of_charsOf suf hk
+      have hk'len := charsOf_some_le hk
+      have hu := charsOf_u16_spec hk
+      simp only [Option.map_eq_some_iff] at h
+      obtain ⟨st, _, hr⟩ := h
+      simp only [hfx, if_true, hkk] at hr
+      subst hr
+      -- the start index and what it denotes
+      have hst : min st k' ≤ (stripCR line).length := by omega
+      have htake : line.take (min st k') = (stripCR line).take (min st k') := by
+        rw [hsuf, List.take_append_of_le_length hst]
+        have : stripCR (stripCR line ++ suf) = stripCR line := by rw [← hsuf]
+        rw [this]
+      have hle : u16len ((stripCR line).take (min st k')) ≤ c.char := by
+        rw [← hu]; exact u16len_take_mono _ (by omega) hk'len
+      have e1 : (UInt32.ofNat c.line).toNat = c.line := by rw [UInt32.toNat_ofNat']; omega
+      have e2 : (UInt32.ofNat c.char).toNat = c.char := by rw [UInt32.toNat_ofNat']; omega
+      have e3 : (UInt32.ofNat (u16len (line.take (min st k')))).toNat = u16len ((stripCR line).take (min st k')) := by
+        rw [UInt32.toNat_ofNat', htake]; omega
+      simp only [rangeOK, toN, e1, e2, e3, Bool.and_eq_true]
+      refine ⟨⟨?_, ?_⟩, ?_⟩
+      · unfold posOK; rw [docLines_get, hl]
+        simp only [Option.map_some, charsOfUnits]
+        rw [charsOf_u16_take _ _ hst]; rfl
+      · unfold posOK; rw [docLines_get, hl]
+        simp only [Option.map_some, hk, Option.isSome_some]
+      · simp only [leqPos, Bool.or_eq_true, Bool.and_eq_true, decide_eq_true_eq, beq_self_eq_true, true_and]
+        right; exact hle
+
+/-- Non-vacuity and the repaired behaviour on the two witnesses of the pinned defect. -/
+example :
+    (textEditRange Fixes.all "account a:b".toList ⟨0, 0⟩ 1).map toN = some ⟨0, 0, 0, 0⟩ ∧
+    (textEditRange Fixes.all "    a:b  1    USD".toList ⟨0, 11⟩ 3).map toN = some ⟨0, 11, 0, 11⟩ ∧
+    (textEditRange Fixes.all "    ассеts:b😀  1".toList ⟨0, 14⟩ 1).map toN = some ⟨0, 4, 0, 14⟩ := by decide
+
 /-! ## Laminar families: outline symbols and fold regions -/
 
 /-- Outline symbols of different entries never partially overlap (they are pairwise disjoint as
@@ -368,59 +423,6 @@ def foldN (f : Fold) : Nat × Nat := (f.s.toNat, f.e.toNat)
     ends ON the blank line). -/
 def linesApart (a b : Transaction) : Bool :=
   decide (a.range.stop.line < b.range.start.line) || decide (b.range.stop.line < a.range.start.line)
-
-theorem m1_lt_of {a b : Nat} (ha : 1 ≤ a) (hb : b < 4294967296) (h : a < b) :
-    (m1 a).toNat < (m1 b).toNat := by
-  rw [m1_toNat ha (by omega), m1_toNat (by omega) hb]; omega
-
-theorem u32_pred_toNat {e s : UInt32} (h : e > s) : (e - 1).toNat = e.toNat - 1 := by
-  have h' : s.toNat < e.toNat := UInt32.lt_iff_toNat_lt.mp h
-  have : (1 : UInt32) ≤ e := by
-    rw [UInt32.le_iff_toNat_le]; simp; omega
-  rw [UInt32.toNat_sub_of_le _ _ this]; rfl
-
-/-- What the fold of one transaction is, in natural numbers. -/
-theorem txFold_spec {fx : Fixes} {t : Transaction} {f : Fold} (st : rngSmall t.range = true)
-    (pt : rngPos t.range = true) (hf : txFold fx t = some f) :
-    f.s.toNat = t.range.start.line - 1 ∧ f.s.toNat < f.e.toNat ∧ f.e.toNat ≤ t.range.stop.line - 1 ∧
-    (fx.fold = false → f.e.toNat = t.range.stop.line - 1) ∧
-    (fx.fold = true → t.range.stop.col = 1 → f.e.toNat = t.range.stop.line - 2) := by
-  simp only [rngSmall, rngPos, Bool.and_eq_true, decide_eq_true_eq] at st pt
-  have e1 := m1_toNat pt.1.1.1 st.1.1.1
-  have e2 := m1_toNat pt.1.2 st.1.2
-  unfold txFold at hf
-  by_cases hp : t.postings.isEmpty = true
-  · simp [hp] at hf
-  · simp only [hp, Bool.false_eq_true, if_false] at hf
-    cases hc : (fx.fold && t.range.stop.col == 1 && decide (m1 t.range.stop.line > m1 t.range.start.line)) with
-    | true =>
-      simp only [hc, if_true] at hf
-      simp only [Bool.and_eq_true, decide_eq_true_eq, beq_iff_eq] at hc
-      have hpred := u32_pred_toNat hc.2
-      by_cases hgt : m1 t.range.stop.line - 1 > m1 t.range.start.line
-      · simp only [hgt, if_true, Option.some.injEq] at hf
-        subst hf
-        have hlt := UInt32.lt_iff_toNat_lt.mp hgt
-        simp only
-        rw [hpred] at hlt ⊢
-        rw [e1] at hlt ⊢
-        rw [e2] at hlt ⊢
-        refine ⟨rfl, by omega, by omega, ?_, fun _ _ => by omega⟩
-        intro h0; rw [h0] at hc; simp at hc
-      · simp [hgt] at hf
-    | false =>
-      simp only [hc, Bool.false_eq_true, if_false] at hf
-      by_cases hgt : m1 t.range.stop.line > m1 t.range.start.line
-      · simp only [hgt, if_true, Option.some.injEq] at hf
-        subst hf
-        have hlt := UInt32.lt_iff_toNat_lt.mp hgt
-        rw [e1, e2] at hlt
-        simp only
-        refine ⟨e1, by rw [e1, e2]; omega, by rw [e2]; omega, fun _ => e2, ?_⟩
-        intro h1 h2
-        exfalso
-        simp [h1, h2, hgt] at hc
-      · simp [hgt] at hf
 
 /-- Transaction folds, code as pinned: laminar when the transactions' line spans (up to and
     including the line of the following token) are strictly apart. -/
